@@ -17,8 +17,10 @@ HOSTILE_LINES = [b"", b"\x00", b"\xff\xfe\xfd", b"{", b"}", b"[", b'{"a":', b'{"
                  b'a=1 a=2 a', b'{"a":"b"} trailing', b'{"a":1}{"a":2}']
 SWEEP_STAGES = ['| json', '| json a, ids, obj', '| json x="a", y="obj.list[0]", z="ids[1]"', '| logfmt', '| logfmt a, b', '| unpack', '| regexp `(?P<k>[a-z]+)=(?P<v>[^ ]*)`',
                 '| pattern "<a> <b>"', '| pattern "<_>=<v>"', '| decolorize', '| line_format "{{ .a }}/{{ __line__ }}"', '| label_format z="{{ .a | ToUpper }}"', '|= ip("10.0.0.0/8")',
-                '!= ip("::1")', '| json | a > 1', '| json | drop a | keep b', '| json | distinct a', '| json | a == ip("10.0.0.1")', '| logfmt | a > 5KB or b < 1m']
-HOSTILE_VALUES = ["NaN", "+Inf", "-Inf", "1e999", "-1e999", "0x10", "1_0", "", " ", "9" * 30, "-0", "1e-400", "99999999999999999999h", "1.5.5", "5XB", "١٢٣", "\x00"]
+                '!= ip("::1")', '| json | a > 1', '| line_format "{{ repeat 1000000000000 \\"x\\" }}"', '| line_format "{{ indent 1000000000000 .app }}"',
+                '| line_format "{{ alignLeft 1000000000000 .app }}"', '| label_format z="{{ alignRight 999999999999 .app }}"', '| line_format "{{ repeat (int .n) \\"-\\" }}"',
+                '| line_format "{{ repeat -1 \\"x\\" }}"', '| label_format z="{{ nindent (int .n) .app }}"', '| json | drop a | keep b', '| json | distinct a', '| json | a == ip("10.0.0.1")', '| logfmt | a > 5KB or b < 1m']
+HOSTILE_VALUES = ["1000000000000", "9223372036854775807", "NaN", "+Inf", "-Inf", "1e999", "-1e999", "0x10", "1_0", "", " ", "9" * 30, "-0", "1e-400", "99999999999999999999h", "1.5.5", "5XB", "١٢٣", "\x00"]
 BAD_QUERIES = [
     ('{a="b"} |~ "("', True), ('{a=~"["}', True), ('{a="b"} | regexp "(?P<x>"', True), ('{a="b"} | regexp "no_named_group"', False),
     ('{a="b"} | pattern "<a><b>"', True), ('{a="b"} | pattern "noname"', True), ('{a="b"} | json x="a.["', True), ('{a="b"} | json x="a..b"', True),
@@ -26,7 +28,8 @@ BAD_QUERIES = [
     ('{a="b"} | addr = ip("not-an-ip")', True), ('{a="b"} |= ip("1.2.3.4/99")', True), ('{a="b"} | logfmt a="x", b="x"', True),
     ('absent_over_time({a="b"}[1m])', True), ('rate_counter({a="b"} | unwrap x [1m])', True), ('label_replace(rate({a="b"}[1m]), "a", "b", "c", "d")', True),
     ('sum(rate({a="b"}[1m])) + on(a) sum(rate({a="b"}[1m]))', True), ('quantile_over_time(2, {a="b"} | unwrap x [1m])', False),
-    ('quantile_over_time(-1, {a="b"} | unwrap x [1m])', False), ('topk(1000000, rate({a="b"}[1m]))', False), ('{a="b"} | drop', True), ('', True), ('{', True), ('{}', False),
+    ('quantile_over_time(-1, {a="b"} | unwrap x [1m])', False), ('topk(1000000, rate({a="b"}[1m]))', False), ('topk(9223372036854775807, count_over_time({job="x"}[1m]))', False), ('bottomk(4611686018427387904, count_over_time({job="x"}[1m]))', False),
+    ('sum by (app) (topk(9223372036854775807, count_over_time({job="x"}[5s])))', False), ('topk(99999999999999999999, rate({a="b"}[1m]))', True), ('{a="b"} | drop', True), ('', True), ('{', True), ('{}', False),
     ('{a="b"} | unwrap x', True), ('sum by (', True), ('1 +', True), ('vector(', True), ('{a="b"}[1m]', True), ('count_over_time({a="b"}[0s])', False),
     ('count_over_time({a="b"}[1y])', True), ('{a="b"} | x > 1e999', False), ('{a="b"} | x > 5XB', True), ('"unterminated', True), ('{a="b"} # only a comment', False),
 ]
